@@ -21,25 +21,14 @@ VARIABLES tid,     \* which trace of the batch
           D,       \* definitions (property-layer state, evolves by the rules here)
           data,    \* held values as logged after the previous event
           pdefs,   \* definitions as the code reported them after the previous event
+          taint,   \* held elements computed while swallowing a callee's failure (KF1)
           viol     \* set of <<label, event index>>
-tvars == <<tid, l, D, data, pdefs, viol>>
+tvars == <<tid, l, D, data, pdefs, taint, viol>>
 
 Tr     == Traces[tid]
 NEv    == Len(Tr.ev)
 Ev     == Tr.ev[l]
 Opt(r, f, d) == IF f \in DOMAIN r THEN r[f] ELSE d
-
-DefsOf(j) ==
-    [ sp    |-> Range(j.sp),
-      bases |-> PairsToFun(j.bases),
-      cells |-> PairsToFun(j.cells),
-      refs  |-> PairsToFun(j.refs),
-      grefs |-> j.grefs,
-      pf    |-> PairsToFun(j.pf),
-      inp   |-> PairsToFun(j.inp),
-      an    |-> j.an,
-      span  |-> PairsToFun(j.span),
-      flib  |-> j.flib ]
 
 -----------------------------------------------------------------------------
 (* How an accepted edit changes the definitions.                           *)
@@ -160,30 +149,34 @@ IdleL(e)   == /\ e.post.exec.stack = 0 /\ e.post.exec.refstack = 0 /\ e.post.exe
               /\ e.post.exec.counter = 0 /\ ~e.post.exec.executing
 Tag        == <<tid, l>>
 
-EventViol(e, D2) ==
+TaintAfter(e, D2) ==
+    LET held == DOMAIN DataL(e) IN
+    TaintClosure(D2, held, (taint \cup Swallowers(D, e.fx)) \cap held)
+
+EventViol(e, D2, ta) ==
     LET dl == DataL(e) IN
     IF e.op = "call"
     THEN IF NodeExists(D, <<e.c[1], e.c[2], e.c[3], <<>>>>)
          THEN CallLabels(Tag, D, NodeOfEv(D, e), e.res, data, dl, e.fx,
-                         Opt(Tr.hdr, "maxdepth", 0))
+                         Opt(Tr.hdr, "maxdepth", 0), ta)
               \cup (IF "tb" \in DOMAIN e THEN TracebackLabels(Tag, e.res, e.fx, e.tb) ELSE {})
          ELSE {}
     ELSE IF ~Accepted(e)
     THEN RejectedLabels(Tag, pdefs, e.post.defs, data, dl)
     ELSE IF e.op \in {"set_value", "clear_at"}
     THEN ValueEditLabels(Tag, D, D2, e.op = "set_value", NodeOfEv(D, e), data, dl, e.fx,
-                         Opt(Tr.hdr, "recalc", FALSE))
+                         Opt(Tr.hdr, "recalc", FALSE), taint)
     ELSE {}
 
-AllViol(e) ==
-    LET D2 == DAfter(e) IN
+AllViol(e, D2, ta) ==
     StateLabels(Tag, D2, DataL(e), InputsL(e), TgN(e), TgE(e), IdleL(e), e.post.sane,
-                InputsDetermined(e))
+                InputsDetermined(e), ta)
     \cup (IF "deps" \in DOMAIN e.post
           THEN DepsLabels(Tag, D2, InputsL(e),
-                          {<<r[1], Range(r[2]), Range(r[3])>> : r \in Range(e.post.deps)})
+                          {<<r[1], Range(r[2]), Range(r[3])>> : r \in Range(e.post.deps)},
+                          ta)
           ELSE {})
-    \cup EventViol(e, D2)
+    \cup EventViol(e, D2, ta)
 
 -----------------------------------------------------------------------------
 TInit ==
@@ -192,17 +185,20 @@ TInit ==
     /\ D = DefsOf(Traces[tid].hdr.init)
     /\ data = <<>>
     /\ pdefs = Traces[tid].hdr.pdefs
-    /\ viol = {}
+    /\ viol = {} /\ taint = {}
     /\ TLCSet(tid, <<0, {}>>)
 
 TNext ==
     /\ l <= NEv
     /\ LET e == Ev
-           new == AllViol(e)
+           D2 == DAfter(e)
+           ta == TaintAfter(e, D2)
+           new == AllViol(e, D2, ta)
            known == {v[1] : v \in viol} IN
        /\ viol' = viol \cup {<<x, l>> : x \in new \ known}
-       /\ D' = DAfter(e)
+       /\ D' = D2
        /\ data' = DataL(e)
+       /\ taint' = ta
        /\ pdefs' = IF "defs" \in DOMAIN e.post THEN e.post.defs ELSE pdefs
     /\ l' = l + 1
     /\ tid' = tid
